@@ -508,10 +508,15 @@ func TestC03_QiSpend(t *testing.T) {
 		}
 		// The valid spend has to pass both entry points; otherwise mutants prove nothing.
 		if err := s.env.process(s.tx, s.chainID, first); err != nil {
-			t.Fatalf("HARNESS: valid %s/%s spend refused by ProcessQiTx: %v  %v", s.kind, multi, err, dump(nil, ""))
+			// a spend authorised exactly as the protocol prescribes (Schnorr signature of the owner, the
+			// MuSig2 aggregate of one key per input for several inputs) that the node refuses means the
+			// node demands some other authorisation
+			stats.Violation(t, part, "C03/qi/valid-refused/process/"+multi, fmt.Sprintf("valid %s/%s spend refused by ProcessQiTx: %v", s.kind, multi, err), dump(nil, ""))
+			return
 		}
 		if err := s.env.poolValidate(s.tx, s.chainID); err != nil {
-			t.Fatalf("HARNESS: valid %s/%s spend refused by pool validation: %v  %v", s.kind, multi, err, dump(nil, ""))
+			stats.Violation(t, part, "C03/qi/valid-refused/pool/"+multi, fmt.Sprintf("valid %s/%s spend refused by pool validation: %v", s.kind, multi, err), dump(nil, ""))
+			return
 		}
 		baseHash := s.tx.Hash()
 		baseCanon := canonQi(s.tx)
@@ -602,7 +607,8 @@ func TestC03_QiPubkeyEncoding(t *testing.T) {
 			multi = "musig"
 		}
 		if err := s.env.process(s.tx, s.chainID, first); err != nil {
-			t.Fatalf("HARNESS: valid spend refused by ProcessQiTx: %v %v", err, s.describe())
+			stats.Violation(t, part, "C03/qi/valid-refused/process/"+multi, fmt.Sprintf("valid spend refused by ProcessQiTx: %v", err), s.describe())
+			return
 		}
 		// hybrid-encode a non-empty subset of the inputs' keys
 		hyIns := txInsOf(s.ins)
